@@ -192,4 +192,22 @@ theorem C12_encrypt_bound (c : Cipher) (n : Nat) (hbs : 0 < c.bs) :
     · split <;> omega
   · omega
 
+/-- **a final call that fails ends the operation**: C_SignFinal / C_VerifyFinal on an active signing / verification operation of a single-part-only mechanism
+    (CKM_RSA_PKCS, CKM_RSA_X_509, CKM_ECDSA, CKM_EDDSA, ...) answer CKR_OPERATION_NOT_INITIALIZED and leave the session with NO active operation (`resetOp`), so that the
+    next C_SignInit / C_VerifyInit is not refused with CKR_OPERATION_ACTIVE.  (The pinned tree returned the error without ending the operation: repaired, see
+    known_findings.txt `fixed:`; the exhaustive call orders of K12 compare exactly this.) -/
+theorem C12_final_on_singlepart_ends_operation (s : State) (h : Nat) (ss : Sess) (hs : s.handles.getSess h = some ss) (hm : ss.opd.multi = false)
+    (cap : Option Nat) (oRv : RV) (od : Option Bytes) :
+    (ss.op = .sign → stepFinalLike s .sign h cap oRv od = (resetOp s h ss, { rv := CKR.OPERATION_NOT_INITIALIZED })) ∧
+    (ss.op = .verify → ∀ n sl, stepVerify s false h (some n) (some sl) oRv = (resetOp s h ss, { rv := CKR.OPERATION_NOT_INITIALIZED })) := by
+  constructor
+  · intro hop
+    simp [stepFinalLike, hs, hop, hm]
+  · intro hop n sl
+    simp [stepVerify, hs, hop, hm]
+
+/-- the session that `resetOp` leaves has no operation -/
+theorem C12_resetOp_none (s : State) (h : Nat) (ss : Sess) :
+    ∃ ss', (resetOp s h ss).handles = s.handles.setSess h ss' ∧ ss'.op = .none := ⟨_, rfl, rfl⟩
+
 end Shm.C12
